@@ -26,6 +26,7 @@
 #include <stdexcept>
 #include <typeinfo>
 
+namespace boost { namespace gil { struct tiff_tag; } }
 namespace sim {
 
 TIFF* open_tiff_client(Channel* ch, char const* mode);
@@ -140,20 +141,33 @@ inline DevSpec dev_from_json(Json const& j)
     return d;
 }
 
+template <class F> void tiff_handle_case(DevSpec const& d, Bytes& bytes, F&& f, std::true_type)
+{
+    Channel* ch = disk()->open_bytes(&bytes, false, d.sch);
+    TIFF* t = open_tiff_client(ch, "r");
+    if (!t) throw std::ios_base::failure("TIFFClientOpen failed");
+    f(t); // gil's tiff device takes ownership (TIFFClose)
+}
+template <class F> void tiff_handle_case(DevSpec const&, Bytes&, F&&, std::false_type) {}
+
+template <class F> void stdio_handle_case(DevSpec const& d, Bytes& bytes, F&& f, std::true_type)
+{
+    Channel* ch = disk()->open_bytes(&bytes, false, d.sch);
+    FILE* fp = open_cookie(ch, "rb", d.bufsz);
+    if (!fp) throw std::runtime_error("fopencookie failed");
+    f(fp); // gil's file_stream_device(FILE*) takes ownership and closes
+}
+template <class F> void stdio_handle_case(DevSpec const&, Bytes&, F&&, std::false_type) {} // gil's tiff device has no FILE* form
+
 // open a read device on `bytes` and hand it to f as an lvalue of the type gil expects
-template <class F> void with_read_device(DevSpec const& d, Bytes& bytes, char const* ext, F&& f)
+template <class Tag, class F> void with_read_device(DevSpec const& d, Bytes& bytes, char const* ext, F&& f)
 {
     Disk* dk = disk();
     switch (d.kind)
     {
     case DEV_FILE:
-    {
-        Channel* ch = dk->open_bytes(&bytes, false, d.sch);
-        FILE* fp = open_cookie(ch, "rb", d.bufsz);
-        if (!fp) throw std::runtime_error("fopencookie failed");
-        f(fp); // gil's file_stream_device(FILE*) takes ownership and closes
+        stdio_handle_case(d, bytes, f, std::integral_constant<bool, !std::is_same<Tag, gil::tiff_tag>::value>());
         break;
-    }
     case DEV_ISTREAM:
     {
         Channel* ch = dk->open_bytes(&bytes, false, d.sch);
@@ -172,8 +186,20 @@ template <class F> void with_read_device(DevSpec const& d, Bytes& bytes, char co
         break;
     }
     case DEV_TIFFH:
-        break; // handled by the tiff TU
+        tiff_handle_case(d, bytes, f, std::is_same<Tag, gil::tiff_tag>());
+        break;
     }
+}
+
+inline uint32_t sim_crc32(unsigned char const* p, size_t n)
+{
+    uint32_t c = 0xFFFFFFFFu;
+    for (size_t i = 0; i < n; ++i)
+    {
+        c ^= p[i];
+        for (int k = 0; k < 8; ++k) c = (c >> 1) ^ (0xEDB88320u & (0u - (c & 1u)));
+    }
+    return c ^ 0xFFFFFFFFu;
 }
 
 // -------------------------------------------------------------------------------- file faults
@@ -210,6 +236,21 @@ inline void apply_file_faults(Bytes& b, Json const& ops, long* fired)
             size_t off = (size_t)op.num("off") % (b.size() + 1);
             Bytes ins; for (auto const& e : op.at("bytes").a) ins.push_back((unsigned char)e.i);
             b.insert(b.begin() + (std::ptrdiff_t)off, ins.begin(), ins.end());
+            ++*fired;
+        }
+        else if (f == "pngcrc")
+        {
+            // walk the chunks; recompute the CRC of every chunk whose stored CRC is wrong
+            size_t off = 8;
+            while (off + 12 <= b.size())
+            {
+                uint32_t len = ((uint32_t)b[off] << 24) | ((uint32_t)b[off + 1] << 16) | ((uint32_t)b[off + 2] << 8) | b[off + 3];
+                if ((size_t)len > b.size() || off + 12 + len > b.size()) break;
+                uint32_t c = sim_crc32(&b[off + 4], 4 + (size_t)len);
+                size_t co = off + 8 + len;
+                b[co] = (unsigned char)(c >> 24); b[co + 1] = (unsigned char)(c >> 16); b[co + 2] = (unsigned char)(c >> 8); b[co + 3] = (unsigned char)c;
+                off += 12 + len;
+            }
             ++*fired;
         }
         else if (f == "digits")
@@ -268,9 +309,10 @@ struct Reader
     static bool probe(Bytes& bytes, char const* ext, long& w, long& h)
     {
         Outcome o;
-        DevSpec d; // FILE*, full delivery, default buffer
+        DevSpec d; // FILE* (file name for tiff), full delivery, default buffer
+        if (std::is_same<Tag, gil::tiff_tag>::value) d.kind = DEV_NAME;
         guarded(o, [&] {
-            with_read_device(d, bytes, ext, [&](auto& dev) {
+            with_read_device<Tag>(d, bytes, ext, [&](auto& dev) {
                 auto be = gil::read_image_info(dev, Tag());
                 w = (long)be._info._width; h = (long)be._info._height;
             });
@@ -282,7 +324,7 @@ struct Reader
     {
         Outcome o;
         guarded(o, [&] {
-            with_read_device(s.dev, bytes, ext, [&](auto& dev) {
+            with_read_device<Tag>(s.dev, bytes, ext, [&](auto& dev) {
                 auto be = gil::read_image_info(dev, Tag());
                 o.w = (long)be._info._width; o.h = (long)be._info._height;
             });
@@ -310,7 +352,7 @@ struct Reader
         guarded(o, [&] {
             Img img; bool sized;
             presize(img, s, bytes, ext, sized);
-            with_read_device(s.dev, bytes, ext, [&](auto& dev) { gil::read_image(dev, img, settings(s)); });
+            with_read_device<Tag>(s.dev, bytes, ext, [&](auto& dev) { gil::read_image(dev, img, settings(s)); });
             o.w = (long)img.width(); o.h = (long)img.height(); o.pix = view_digest(gil::const_view(img));
         });
         return o;
@@ -322,7 +364,7 @@ struct Reader
             Img img; bool sized;
             presize(img, s, bytes, ext, sized);
             if (!sized) { o.cls = "skipped:no-info"; return; }
-            with_read_device(s.dev, bytes, ext, [&](auto& dev) { gil::read_view(dev, gil::view(img), settings(s)); });
+            with_read_device<Tag>(s.dev, bytes, ext, [&](auto& dev) { gil::read_view(dev, gil::view(img), settings(s)); });
             o.w = (long)img.width(); o.h = (long)img.height(); o.pix = view_digest(gil::const_view(img));
         });
         return o;
@@ -333,7 +375,7 @@ struct Reader
         guarded(o, [&] {
             Img img; bool sized;
             presize(img, s, bytes, ext, sized);
-            with_read_device(s.dev, bytes, ext, [&](auto& dev) { gil::read_and_convert_image(dev, img, settings(s)); });
+            with_read_device<Tag>(s.dev, bytes, ext, [&](auto& dev) { gil::read_and_convert_image(dev, img, settings(s)); });
             o.w = (long)img.width(); o.h = (long)img.height(); o.pix = view_digest(gil::const_view(img));
         });
         return o;
@@ -345,7 +387,7 @@ struct Reader
             Img img; bool sized;
             presize(img, s, bytes, ext, sized);
             if (!sized) { o.cls = "skipped:no-info"; return; }
-            with_read_device(s.dev, bytes, ext, [&](auto& dev) { gil::read_and_convert_view(dev, gil::view(img), settings(s)); });
+            with_read_device<Tag>(s.dev, bytes, ext, [&](auto& dev) { gil::read_and_convert_view(dev, gil::view(img), settings(s)); });
             o.w = (long)img.width(); o.h = (long)img.height(); o.pix = view_digest(gil::const_view(img));
         });
         return o;
@@ -355,7 +397,7 @@ struct Reader
         Outcome o;
         guarded(o, [&] {
             Img dst;
-            with_read_device(s.dev, bytes, ext, [&](auto& dev) {
+            with_read_device<Tag>(s.dev, bytes, ext, [&](auto& dev) {
                 using dev_t = typename std::remove_reference<decltype(dev)>::type;
                 using device_t = typename gil::get_read_device<dev_t, Tag>::type;
                 using reader_t = gil::scanline_reader<device_t, Tag>;
@@ -391,7 +433,7 @@ struct Reader
         Outcome o;
         guarded(o, [&] {
             Any img;
-            with_read_device(s.dev, bytes, ext, [&](auto& dev) { gil::read_image(dev, img, Tag()); });
+            with_read_device<Tag>(s.dev, bytes, ext, [&](auto& dev) { gil::read_image(dev, img, Tag()); });
             boost::variant2::visit(DigestVisitor{&o.pix, &o.w, &o.h}, gil::const_view(img));
             o.extra = "index=" + std::to_string(img.index());
         });
